@@ -834,6 +834,34 @@ pub fn gen_hist(schemes: &[&str], rng: &mut Rng, thorough: bool, cases: &mut Vec
             }
             cases.push(c);
         }
+        // (appended last) a decoded record with the 65-byte uncompressed key updated by the NEGATED
+        // own key (same x coordinate, other parity): a re-keying, the node id changes
+        if kinds_of(scheme).contains(&Kind::Secp) {
+            let (ks, _) = case_keys_of_kind(scheme, rng, Kind::Secp);
+            let k0 = ind_of(scheme, &ks[0]);
+            let neg = IndKey { kind: Kind::Secp, sk: secp_neg(&k0.sk) };
+            let un = {
+                let k = enr::k256::ecdsa::SigningKey::from_slice(&k0.sk).unwrap();
+                k.verifying_key().to_encoded_point(false).as_bytes().to_vec()
+            };
+            let mut spec = crate::gen_dec::Spec::new(5, vec![(b"udp".to_vec(), rlp_uint(9))], k0.clone());
+            for it in spec.items.iter_mut() {
+                if it.0 == rlp_bytes(b"secp256k1") {
+                    it.1 = rlp_bytes(&un);
+                }
+            }
+            let buf = spec.encode(false);
+            for st in ["step op=set_udp4 port=10", "step op=set_seq seq=9", "step op=remove_key key=756470", "step op=set_udp_socket ip=c0a80001 port=1", "step op=remove_insert rm=- ins=7a:01"] {
+                let mut c = Case::new("hist", scheme, id, "uncompressed-key-negated-signer");
+                id += 1;
+                c.keys = vec![ks[0].clone(), neg.secret_for(scheme), ks[2].clone()];
+                c.lines.push(format!("init kind=decode buf={}", hx(&buf)));
+                c.lines.push(with_signer(st, 1, false));
+                c.lines.push("step op=redecode".into());
+                c.lines.push(with_signer("step op=set_tcp4 port=1", 0, false));
+                cases.push(c);
+            }
+        }
     }
 }
 
@@ -1497,6 +1525,36 @@ pub fn gen_eq(schemes: &[&str], rng: &mut Rng, thorough: bool, cases: &mut Vec<C
                 c.lines.push("step op=snap slot=a".into());
                 c.lines.push(format!("step op=setcur buf={}", hx(&b)));
                 c.lines.push("step op=cmp slot=a".into());
+                cases.push(c);
+            }
+        }
+        // the same node's record with its key stored compressed and stored uncompressed (both signed
+        // by the independent signer): same seq and other pairs, different pairs all the same
+        {
+            let (keys, _) = case_keys(scheme, rng);
+            let k0 = ind_of(scheme, &keys[0]);
+            if k0.kind == Kind::Secp {
+                let un = {
+                    let k = enr::k256::ecdsa::SigningKey::from_slice(&k0.sk).unwrap();
+                    k.verifying_key().to_encoded_point(false).as_bytes().to_vec()
+                };
+                let a = crate::gen_dec::Spec::new(7, vec![(b"udp".to_vec(), rlp_uint(9))], k0.clone());
+                let mut b = a.clone();
+                for it in b.items.iter_mut() {
+                    if it.0 == rlp_bytes(b"secp256k1") {
+                        it.1 = rlp_bytes(&un);
+                    }
+                }
+                let mut c = Case::new("eq", scheme, id, "compressed-vs-uncompressed-key");
+                id += 1;
+                c.keys = keys.clone();
+                c.lines.push(format!("init kind=decode buf={}", hx(&a.encode(false))));
+                c.lines.push("step op=snap slot=a".into());
+                c.lines.push(format!("step op=setcur buf={}", hx(&b.encode(false))));
+                c.lines.push("step op=cmp slot=a".into());
+                c.lines.push("step op=snap slot=b".into());
+                c.lines.push(format!("step op=setcur buf={}", hx(&a.encode(true))));
+                c.lines.push("step op=cmp slot=b".into());
                 cases.push(c);
             }
         }
